@@ -462,6 +462,47 @@ def case_dataset(B, cfg):
                  d)
 
 
+def case_table_multi(B, cfg):
+    """(d') the regimen table of a protocol with several dose events that
+    differ in amount and duration: one row per administration up to the
+    final time, each with its own event's duration and amount"""
+    from .c15 import DosedSymMech, expected_doses
+    events = []
+    for k, (start, period, mult) in enumerate(cfg['events']):
+        lv, du = B.var('rate%d' % k), B.var('dur%d' % k)
+        B.assume(lv > 0)
+        B.assume(du > 0)
+        events.append((lv, start, du, period, mult))
+    mm = DosedSymMech(B, 2, 1, events)
+    pm = chi.PredictiveModel(mm, chi.GaussianErrorModel())
+    ft = cfg['final_time']
+    try:
+        tab = pm.get_dosing_regimen(ft)
+    except Exception as e:
+        B.fact('no-exception:get_dosing_regimen', False, repr(e))
+        return
+    want = expected_doses(events, float('inf') if ft is None else ft,
+                          indefinite_once=(ft is None))
+    if not want:
+        B.fact('no dose up to the final time: None', tab is None, repr(tab))
+        return
+    B.fact('a table is returned', tab is not None)
+    if tab is None:
+        return
+    rows = sorted(((r['Time'], r['Duration'], r['Dose'])
+                   for _, r in tab.iterrows()), key=lambda r: float(r[0]))
+    want = sorted(want, key=lambda r: float(r[0]))
+    B.fact('one row per administration', len(rows) == len(want),
+           '%d vs %d' % (len(rows), len(want)))
+    if len(rows) != len(want):
+        return
+    for k, (r, w) in enumerate(zip(rows, want)):
+        B.fact('row %d: time' % k, float(r[0]) == float(w[0]),
+               '%r vs %r' % (r[0], w[0]))
+        B.eq('row %d: duration of its own event' % k, r[1], w[1])
+        B.eq('row %d: amount of its own event' % k, r[2], w[2])
+
+
 def _mechs(obj):
     """the mechanistic models a (wrapped) predictive model simulates"""
     if isinstance(obj, chi.PAMPredictiveModel):
@@ -614,6 +655,13 @@ def jobs(tier):
                         out.append(('surgery', 'case_surgery', dict(
                             model='generated', spec=spec, var=s,
                             first_var=s0, direct=direct), FACADE))
+    evsets = [[(0.0, 0, 0), (12.0, 0, 0)], [(0.0, 0, 0), (2.0, 1.0, 3)],
+              [(1.0, 0, 0), (0.5, 2.0, 2), (30.0, 0, 0)],
+              [(5.0, 0, 0), (1.0, 0, 0), (3.0, 0, 0)]]
+    for ev in evsets:
+        for ft in (None, 2.5, 12.0, 40.0, 0.25):
+            out.append(('table', 'case_table_multi', dict(
+                events=ev, final_time=ft), FACADE))
     for wkind in ('predictive', 'population', 'prior', 'posterior'):
         for period, num in ((False, None), (True, None), (True, 2)):
             out.append(('wrappers', 'case_wrappers', dict(
